@@ -5,6 +5,7 @@ package unbound
 
 import (
 	"context"
+	"time"
 
 	"github.com/fogfish/golem/pipe/v2"
 	"verif/env"
@@ -17,6 +18,7 @@ type Cfg struct {
 	CloseSender bool // the (single) sender closes the send side after its last send
 	Cancel      bool // a free canceller thread
 	Recv        int  // -1 drain until closed; 0 nobody receives; m>0 receive m values then leave
+	RecvGap     int  // >0: the receiver sleeps that long (virtual ns) before every receive - a slow consumer
 	Any         bool // element type any: the odd values travel as they are, every even one as a nil interface value
 }
 
@@ -110,7 +112,14 @@ func Scenario(c Cfg) {
 	if c.Recv != 0 {
 		go func() { // receiver
 			n := 0
-			for x := range rcv {
+			for {
+				if c.RecvGap > 0 {
+					time.Sleep(time.Duration(c.RecvGap))
+				}
+				x, ok := <-rcv
+				if !ok {
+					break
+				}
 				env.Log("got", x)
 				n++
 				if c.Recv > 0 && n == c.Recv {
